@@ -1,6 +1,9 @@
 package main
 
 import (
+	"fmt"
+	"os"
+
 	"verif/engine/lat"
 	"verif/engine/ref"
 )
@@ -552,6 +555,21 @@ func borderScopes(thorough bool) []Scope {
 // next to thin walls - instead of one hand-made family per shape.  Variants: collinear vertices
 // merged or every grid point on the boundary kept as a vertex; start vertices per ring as given by
 // rots (fractions of the ring length in eighths; nil = every start vertex).
+// famOwn: the member with this index is enumerated by this process (lat.Enumerate hands member i of an explicit family to
+// shard i mod n; the parent process only counts).  The large cell-union families keep a nil placeholder for the members of
+// other shards, so that 16 worker processes do not each hold the whole family in memory.
+var famShardI, famShardN, famCountOnly = func() (int, int, bool) {
+	i, n := 0, 1
+	if v := os.Getenv("VERIF_SHARD"); v != "" {
+		fmt.Sscanf(v, "%d/%d", &i, &n)
+		return i, n, false
+	}
+	// no shard assignment: the parent (it only needs the number of scopes) - or a replay, which takes its input from a file
+	return 0, 1, os.Getenv("VERIF_REPLAY") == ""
+}()
+
+func famOwn(i int) bool { return !famCountOnly && i%famShardN == famShardI }
+
 func cellUnionFamily(xs, ys []int64, rots []int, keepGridPoints []bool) [][][]ref.P {
 	nx, ny := len(xs)-1, len(ys)-1
 	n := nx * ny
@@ -678,6 +696,10 @@ func cellUnionFamily(xs, ys []int64, rots []int, keepGridPoints []bool) [][][]re
 					}
 				}
 				for k := 0; k < longest; k++ {
+					if !famOwn(len(out)) {
+						out = append(out, nil) // another shard's member: keep the index, not the polygon
+						continue
+					}
 					rings := [][]ref.P{rotations(shell, []int{k})[0]}
 					for _, h := range holes {
 						rings = append(rings, rotations(h, []int{k})[0])
@@ -687,6 +709,10 @@ func cellUnionFamily(xs, ys []int64, rots []int, keepGridPoints []bool) [][][]re
 				continue
 			}
 			for _, e := range rots {
+				if !famOwn(len(out)) {
+					out = append(out, nil)
+					continue
+				}
 				rings := [][]ref.P{rotations(shell, []int{len(shell) * e / 8})[0]}
 				for _, h := range holes {
 					rings = append(rings, rotations(h, []int{len(h) * e / 8})[0])
